@@ -78,6 +78,61 @@ def parse_literal(toks):
     return None
 
 
+def find_literals(toks, lo, hi):
+    """amount literals in toks[lo:hi]: [(first_tok_index, last_tok_index, Fraction)]"""
+    out = []
+    i = lo
+    while i < hi:
+        t = toks[i]
+        # source form: Amnt!( [-] LIT )
+        if t.text == 'Amnt' and i + 2 < hi and toks[i + 1].text == '!' and toks[i + 2].text == '(':
+            c = rsparse.match_close(toks, i + 2)
+            inner = toks[i + 3:c]
+            neg = bool(inner) and inner[0].text == '-'
+            if neg:
+                inner = inner[1:]
+            if len(inner) == 1 and inner[0].kind == 'num':
+                try:
+                    s_ = re.sub(r'(f64|f32|u\d+|i\d+|usize|isize)$', '', inner[0].text.replace('_', ''))
+                    fr = Fraction(s_ + '0' if s_.endswith('.') else s_)
+                    out.append((i, c, -fr if neg else fr))
+                    i = c + 1
+                    continue
+                except ValueError:
+                    pass
+        # expanded f64 form: LIT as f64
+        if t.kind == 'num' and i + 2 < hi and toks[i + 1].text == 'as' and toks[i + 2].text in ('f64', 'f32'):
+            fr = parse_literal(toks[i:i + 3])
+            if fr is not None:
+                out.append((i, i + 2, fr))
+                i += 3
+                continue
+        # expanded decimal form: Decimal::new_raw(c, n)
+        if t.text == 'Decimal' and i + 3 < hi and toks[i + 1].text == '::' and toks[i + 2].text == 'new_raw' and toks[i + 3].text == '(':
+            c = rsparse.match_close(toks, i + 3)
+            fr = parse_literal(toks[i:c + 1])
+            if fr is not None:
+                out.append((i, c, fr))
+                i = c + 1
+                continue
+        i += 1
+    return out
+
+
+def rewrite_literals(item, lits, text=None):
+    """R6 on one fn item: returns the item's text (from the fn keyword on) with every amount literal
+    of its body replaced by its named constant."""
+    base = item.start
+    text = item.text() if text is None else text
+    if item.body_open is None:
+        return text
+    found = find_literals(item.toks, item.body_open, item.body_close)
+    for a, b, fr in sorted(found, key=lambda x: -x[0]):
+        n = lits.use(fr)
+        text = text[:item.toks[a].start - base] + f'amnt_lit_{n}()' + text[item.toks[b].end - base:]
+    return text
+
+
 def real_of(fr):
     if fr.denominator == 1:
         return f'({fr.numerator}real)' if fr >= 0 else f'(-{abs(fr.numerator)}real)'
@@ -126,7 +181,7 @@ class TypesGen:
 
     def fn_text(self, item, indent='    '):
         attrs = ''.join(f'{indent}{a}\n' for a in kept_attrs(item))
-        return attrs + indent + item.text()
+        return attrs + indent + rewrite_literals(item, self.lits)
 
     def fn_children(self, impl):
         return [c for c in impl.children() if c.kw == 'fn']
@@ -586,12 +641,16 @@ def build_types_units(exp_text, label, unit_prefix, modules=None, crate_root=Fal
     tg.emit_all()
     out = {}
     # --- types with reference unit: built on gen_hasref ---
-    em = gen_verus.Emitter(unit_prefix + '_ref', gen_verus.Contracts('generic.toml'))
+    em = gen_verus.Emitter(unit_prefix + '_ref', gen_verus.Contracts('generic.toml'), lits=tg.lits)
     tg_ref_unit = unit_prefix + '_ref'
     parts = [em.render(f, subst) for f in ('shim_m0.vrs', 'traits_core.vrs', 'hasref_specs.vrs', 'trait_hasref.vrs',
                                            'one_amount.vrs', 'one_hasref.vrs', 'rate.vrs', 'derived_specs.vrs')]
     body_ref = '\n'.join(tg.out_ref).replace(f'id={unit_prefix}:', f'id={tg_ref_unit}:')
     body_noref = '\n'.join(tg.out_noref).replace(f'id={unit_prefix}:', f'id={unit_prefix}_noref:')
+    if tg.out_noref:
+        em2 = gen_verus.Emitter(unit_prefix + '_noref', gen_verus.Contracts('generic.toml'), lits=tg.lits)
+        parts2 = [em2.render('shim_m0.vrs', subst), em2.render('traits_core.vrs', subst, quantity_defaults=True),
+                  em2.render('rate.vrs', subst), em2.render('lemmas_quantity_m0.vrs', subst)]
     lits = tg.lits.decls()
     text = gen_verus.mark_lemmas(gen_verus.wrap('\n\n'.join(parts + [lits, body_ref])), tg_ref_unit)
     if c07:
@@ -599,9 +658,6 @@ def build_types_units(exp_text, label, unit_prefix, modules=None, crate_root=Fal
     recs_ref = [dict(r, obligation=r['obligation'].replace(f'{unit_prefix}:', f'{tg_ref_unit}:')) for r in tg.records]
     out['ref'] = (text, em.records + recs_ref)
     if tg.out_noref:
-        em2 = gen_verus.Emitter(unit_prefix + '_noref', gen_verus.Contracts('generic.toml'))
-        parts2 = [em2.render('shim_m0.vrs', subst), em2.render('traits_core.vrs', subst, quantity_defaults=True),
-                  em2.render('rate.vrs', subst), em2.render('lemmas_quantity_m0.vrs', subst)]
         text2 = gen_verus.mark_lemmas(gen_verus.wrap('\n\n'.join(parts2 + [lits, body_noref])), unit_prefix + '_noref')
         recs2 = [dict(r, obligation=r['obligation'].replace(f'{unit_prefix}:', f'{unit_prefix}_noref:')) for r in tg.records]
         out['noref'] = (text2, em2.records + recs2)
